@@ -90,6 +90,11 @@ CHECKS = {
    "The finite set of go:generate directives (41 with present inputs) is enumerated completely; cmd/ogen, cmd/jschemagen and tools/mkformattest are built from the current tree and run with the directive's own arguments into scratch; every produced file must be byte-identical to the checked-in one and no checked-in generated file may be left unreproduced. Thorough repeats under GOMAXPROCS=1 and 3.",
    "Runs in a mirror directory (symlinks) so relative paths equal the directive's; GOPACKAGE/GOFILE set as go generate does; the emptied k8s input is skipped and listed.",
    "DESIGN.md §2 C14"),
+ "C07": ("genlab", "exploration",
+   "differential execution of the real parser and generator on a document and on its twin with PRNG-chosen non-recursive references replaced by copies of their targets (the harness's own RFC 3986 / RFC 6901 resolver and inliner); parsed API and IR compared as labelled graphs by bisimulation, generated bytes compared where names must coincide; direct invariants on shared components; cycle and depth documents in worker processes; Expand round trip",
+   "Random reference graphs (DAGs over schemas, parameters, headers, responses, request bodies, examples, security schemes and path items; 1-3 files; shared targets used from 2-3 sites under different names; percent- and tilde-escaped pointer segments), 18 crafted shared-target documents, a 24-document pointer-escaping matrix, a 3-file relative-path document and the corpus (every inlinable reference, plus one inline-everything subset per document): for each (document, subset of references) both forms must parse or both fail, the two *openapi.API values must be equal up to reference bookkeeping, both must generate or both fail, the IR shapes must be bisimilar, and generated files must be byte-identical when no schema or response reference was inlined. Direct checks need no twin: a header's map key equals its Name in API and IR, the API's operation set equals the document's, status-code wrappers match the response kind, no two reference keys denote one location. 44 cycle documents (self, 2- and 3-cycles, tail into a cycle, across files; 7 component kinds) must fail with a located 'infinite recursion' diagnostic, schema cycles must generate (a sample is compiled), reference chains of length 3..5000 run in child processes (a dead worker is a violation, depth beyond the limit must be an error). parser.Expand -> yaml.Marshal -> parse must give an equal API (Components excluded).",
+   "Not inlined: recursive references, references named by a discriminator, references with siblings. About a quarter of the comparisons are skipped after a direct finding on the same document (listed known findings: shared header/path-item/response leaks). Byte comparison is strict only where the declared Go type names coincide.",
+   "DESIGN.md §2 C07"),
  "C20": ("genlab", "fault_enumeration",
    "fault enumeration on the built cmd/ogen binary with directory-snapshot oracle; strace read-fault injection and syscall trace monitor",
    "Every listed pre-write failure stage (25 stages: flags, config, spec read, YAML/JSON parse, version, validation, dangling/missing/cyclic refs, not-implemented, IR conflicts, route conflicts) x {--clean, no --clean} x 7 target states is executed with the binary built from the current tree; a failing run must exit non-zero and leave the recursive snapshot of the target identical; successful runs may only create/modify/remove top-level regular files with the generator's naming pattern. Thorough adds EIO injected by strace on the N-th read of spec and config and a syscall-level monitor.",
